@@ -3,8 +3,15 @@ package engine
 // World P — one replica group of three store nodes replicating writes through
 // etcd-raft (property C05).  Per node: real EngineImpl + DBPTInfo + raftconn.RaftNode
 // + lib/raftlog + the shard write path, each on its own simulated disk, all inside
-// one testing/synctest bubble (virtual clock).  Stubs: transport (pwNet), meta
-// service (pwMeta over a real meta.Data), coordinator (pwClient), SQL layer.
+// one testing/synctest bubble (virtual clock; the scheduler goroutine is the only
+// one that sleeps on purpose, synctest.Wait is the quiescence test after every
+// step).  Stubs: transport (pwNet), meta service (pwMeta over a real meta.Data),
+// coordinator (startWrite/writePart), SQL layer.  Every case runs in a child
+// process of the worker (p_proc.go).
+//
+// Files: p_env.go (setup, meta facade, node incarnation, network), p_sched.go
+// (steps, client, delivery, crash/restart, closing phase), p_oracle.go (committed
+// prefix, master/replica dumps against the model), p_proc.go (parent/child).
 
 import (
 	"fmt"
@@ -395,6 +402,13 @@ func TestVerifWorldP(t *testing.T) {
 	core.RunWorker[PCase](worldP{})
 }
 
+// runAttrs: attributes every violation of the run carries (matcher keys).
+func (r *pwRun) runAttrs() map[string]string {
+	return map[string]string{"window": r.windowStr(), "meta_torn": fmt.Sprint(r.metaTorn), "flush_cut": fmt.Sprint(r.flushCut),
+		"after_unapplied_ack": fmt.Sprint(r.unapplied), "multi_shard_flush": fmt.Sprint(r.multiShardFlush()),
+		"split_meta": fmt.Sprint(r.cs.SplitMeta), "meta_lag": fmt.Sprint(r.cs.MetaLag), "sg_split": fmt.Sprint(r.cs.SGSplit)}
+}
+
 // multiShardFlush: the partition has two shards (two shard groups) and a memtable
 // flush of one of them may have happened (explicit step, or size-triggered).
 func (r *pwRun) multiShardFlush() bool {
@@ -494,6 +508,8 @@ func (r *pwRun) exec() {
 	hd := []string{fmt.Sprintf("knobs=%+v nm=%d ns=%d drop=%d dup=%d reo=%d sync=%d lag=%v", c.Knobs, c.NMst, c.NSeries, c.Drop, c.Dup, c.Reorder, c.SyncMs, c.MetaLag)}
 	// initial election: the cluster is started and left alone until a leader exists
 	if v := r.runFor(12*time.Second, core.NewRand(c.Seed^0x9e37), false); v != nil {
+		v.Attrs = mergeAttrsS(v.Attrs, r.runAttrs())
+		v.Attrs["phase"] = "bootstrap"
 		out.Violation = v
 		return
 	}
@@ -502,8 +518,8 @@ func (r *pwRun) exec() {
 		r.opi = i
 		hd = append(hd, pwOpDigest(op))
 		if v := r.step(i, op); v != nil {
-			v.Attrs = mergeAttrsS(v.Attrs, map[string]string{"phase": "ops", "op": op.K, "window": r.windowStr(), "meta_torn": fmt.Sprint(r.metaTorn), "flush_cut": fmt.Sprint(r.flushCut), "after_unapplied_ack": fmt.Sprint(r.unapplied), "multi_shard_flush": fmt.Sprint(r.multiShardFlush()), "split_meta": fmt.Sprint(r.cs.SplitMeta), "meta_lag": fmt.Sprint(r.cs.MetaLag), "sg_split": fmt.Sprint(r.cs.SGSplit)})
-			if r.known(v) != "" {
+			v.Attrs = mergeAttrsS(v.Attrs, map[string]string{"op": op.K})
+			if v = r.over(v, "ops"); v == nil {
 				continue
 			}
 			out.Violation = v
@@ -514,10 +530,13 @@ func (r *pwRun) exec() {
 	out.Digest = core.DigestStrings(hd)
 	out.Nontrivial = out.Faults["crash"] > 0 && out.Stats["writes_acked"] > 1
 	if v := r.closing(); v != nil {
-		v.Attrs = mergeAttrsS(v.Attrs, map[string]string{"window": r.windowStr(), "meta_torn": fmt.Sprint(r.metaTorn), "flush_cut": fmt.Sprint(r.flushCut), "after_unapplied_ack": fmt.Sprint(r.unapplied), "multi_shard_flush": fmt.Sprint(r.multiShardFlush()), "split_meta": fmt.Sprint(r.cs.SplitMeta), "meta_lag": fmt.Sprint(r.cs.MetaLag), "sg_split": fmt.Sprint(r.cs.SGSplit)})
-		if r.known(v) == "" {
-			out.Violation = v
+		// violations of the oracles were already offered to the known-finding matcher by closing();
+		// what arrives here is reported
+		if v.Attrs["phase"] == "" {
+			v.Attrs = mergeAttrsS(v.Attrs, r.runAttrs())
+			v.Attrs["phase"] = r.phase
 		}
+		out.Violation = v
 	}
 	out.SimTimeNs = int64(time.Since(pwEpoch))
 }
